@@ -7,7 +7,7 @@ import numpy as np
 from props.common import load_impl, exc_name
 
 RULE = ("for a range of scikit-learn estimators (1-NN, 3-NN, logistic regression, decision tree, SVC, SVC(probability), LinearSVC, GaussianNB, small random forest, "
-        "scaler+PCA+logistic pipeline) x {accuracy on 3 classes, ROC-AUC on binary labels} x EVERY subset of 6 training rows quick / 8 thorough (empty, single-row, "
+        "scaler+PCA+logistic pipeline) x {accuracy on 3 classes, accuracy with a training class absent from the validation labels (null score exactly 0), ROC-AUC on binary labels} x EVERY subset of 6 training rows quick / 8 thorough (empty, single-row, "
         "single-class, too small included): (1) the raw outcome class of fit+predict+metric is recorded under the harness's own try/except, fed to the Lean model "
         "of the two handler layers (Outcome.layer1/caught) and the predicted value / raise-or-not is compared with the real utility call; (2) the real call must "
         "return a finite float and never raise; (3) bruteforce and montecarlo over the same data return finite vectors. Non-trivial = the subset is degenerate "
@@ -72,13 +72,15 @@ def run(ctx):
     n_rows = 6 if q else 8
     nprng = np.random.RandomState(ctx.seed + 17)
     outcomes = {}
-    for metric_kind in ("accuracy", "rocauc"):
+    for metric_kind, variant in (("accuracy", "all-classes-validated"), ("accuracy", "class-absent-from-validation"), ("rocauc", "all-classes-validated")):
         c = 3 if metric_kind == "accuracy" else 2
         X = nprng.randn(n_rows, 3)
         y = np.array([i % c for i in range(n_rows)])
         nprng.shuffle(y)
         Xv = nprng.randn(7, 3)
         yv = np.array([i % c for i in range(7)])
+        if variant == "class-absent-from-validation":
+            yv = np.array([i % 2 for i in range(7)])          # class 2 never validated: the null score is exactly 0.0
         for name, est in estimators(q):
             util = (U.SklearnModelAccuracy if metric_kind == "accuracy" else U.SklearnModelRocAuc)(est)
             try:
@@ -94,7 +96,7 @@ def run(ctx):
                 idx = list(s)
                 Xs, ys = X[idx], y[idx]
                 raw = raw_outcome(est, metric_kind, Xs, ys, Xv, yv, None)
-                case = dict(estimator=name, metric=metric_kind, subset=idx, y_subset=ys.tolist(), X_seed=ctx.seed + 17)
+                case = dict(estimator=name, metric=metric_kind, variant=variant, null=null, subset=idx, y_subset=ys.tolist(), X_seed=ctx.seed + 17)
                 try:
                     with warnings.catch_warnings():
                         warnings.simplefilter("ignore")
@@ -106,7 +108,7 @@ def run(ctx):
                 kind = raw if isinstance(raw, str) else "score"
                 outcomes[(name, metric_kind, kind.split(":")[0])] = outcomes.get((name, metric_kind, kind.split(":")[0]), 0) + 1
                 degenerate = isinstance(raw, str) or len(set(ys.tolist())) < c
-                ctx.case((name, metric_kind, tuple(idx)), nontrivial=degenerate or len(set(ys.tolist())) >= 2,
+                ctx.case((name, metric_kind, variant, tuple(idx)), nontrivial=degenerate or len(set(ys.tolist())) >= 2,
                          sample=(dict(case, raw=raw, got=got) if isinstance(raw, str) and len(idx) >= 2 else None), metric=metric_kind, raw=kind.split(":")[0])
                 if raised is not None:
                     ctx.mismatch("utility raised on a subset although it can be evaluated on the full training set", case, impl=raised, spec="finite score (null when not fittable/scorable)")
@@ -128,7 +130,7 @@ def run(ctx):
                     if m["layer2"] == "raise" or abs(float(Fraction(m["layer2"])) - got) > 1e-5:
                         ctx.mismatch("model of the handler layers disagrees with the implementation", case, impl=got, model=m, failing_input=False,
                                      broken="corr:Ds.Outcome.layer1/caught / theorems C15_*")
-            if ctx.elapsed() > (70 if q else 700):
+            if ctx.elapsed() > (95 if q else 800):
                 break
     ctx.extra["raw_outcome_kinds"] = {"%s/%s/%s" % k: v for k, v in sorted(outcomes.items())}
     # finiteness of the scoring methods on such data
